@@ -191,11 +191,17 @@ pub fn trunc_value<T: Serialize + Deserialize + WithSchema, S: Src>(s: &mut S, v
 
 pub fn trunc_library<S: Src>(s: &mut S) {
     const LENS: [usize; 9] = [0, 1, 2, 100, 4095, 4096, 4097, 9000, 70000];
-    match s.below(5) {
+    match s.below(12) {
         0 => { let n = LENS[s.below(LENS.len())]; let v: String = std::iter::repeat('q').take(n).collect(); trunc_value(s, &v, 0, &|a: &String, b: &String| a == b) }
         1 => { let n = LENS[s.below(LENS.len())]; let v: Vec<u8> = (0..n).map(|i| i as u8).collect(); trunc_value(s, &v, 0, &|a: &Vec<u8>, b: &Vec<u8>| a == b) }
         2 => { let n = LENS[s.below(7)]; let v: Vec<u32> = (0..n as u32).collect(); trunc_value(s, &v, 0, &|a: &Vec<u32>, b: &Vec<u32>| a == b) }
         3 => { let n = LENS[s.below(LENS.len())]; let v: (String, u8, Vec<String>) = ("z".repeat(n), 7, vec!["k".repeat(n / 2), String::new()]); trunc_value(s, &v, 0, &|a: &(String, u8, Vec<String>), b: &(String, u8, Vec<String>)| a == b) }
+        5 => { let n = [1usize, 3, 40][s.below(3)]; let v: std::collections::BTreeSet<u32> = (0..n as u32).map(|i| i * 7).collect(); trunc_value(s, &v, 0, &|a: &std::collections::BTreeSet<u32>, b: &std::collections::BTreeSet<u32>| a == b) }
+        6 => { let n = [1usize, 3, 40][s.below(3)]; let v: std::collections::HashSet<u16> = (0..n as u16).collect(); trunc_value(s, &v, 0, &|a: &std::collections::HashSet<u16>, b: &std::collections::HashSet<u16>| a == b) }
+        7 => { let n = [1usize, 3, 40][s.below(3)]; let v: std::collections::VecDeque<u16> = (0..n as u16).collect(); trunc_value(s, &v, 0, &|a: &std::collections::VecDeque<u16>, b: &std::collections::VecDeque<u16>| a == b) }
+        8 => { let n = [1usize, 3, 40][s.below(3)]; let v: std::collections::BinaryHeap<u16> = (0..n as u16).collect(); trunc_value(s, &v, 0, &|a: &std::collections::BinaryHeap<u16>, b: &std::collections::BinaryHeap<u16>| a.len() == b.len()) }
+        9 => { let n = [1usize, 3, 40][s.below(3)]; let v: std::collections::HashMap<u16, u8> = (0..n as u16).map(|i| (i, i as u8)).collect(); trunc_value(s, &v, 0, &|a: &std::collections::HashMap<u16, u8>, b: &std::collections::HashMap<u16, u8>| a == b) }
+        10 => { let n = [1usize, 3][s.below(2)]; let v: (u8, Option<Vec<u16>>, Box<[u32]>) = (1, Some(vec![7; n]), vec![9u32; n].into_boxed_slice()); trunc_value(s, &v, 0, &|a: &(u8, Option<Vec<u16>>, Box<[u32]>), b: &(u8, Option<Vec<u16>>, Box<[u32]>)| a == b) }
         _ => { let n = LENS[s.below(5)]; let v: std::collections::BTreeMap<String, Option<String>> = (0..3usize).map(|i| ("m".repeat(n + i), if i == 1 { None } else { Some("v".repeat(n)) })).collect(); trunc_value(s, &v, 0, &|a: &std::collections::BTreeMap<String, Option<String>>, b: &std::collections::BTreeMap<String, Option<String>>| a == b) }
     }
 }
@@ -254,7 +260,19 @@ pub fn intro_library<S: Src>(s: &mut S) {
         14 => intro_consistent(&std::sync::Mutex::new(vec![1u8; n]), d, "std::sync::Mutex<Vec<u8>>"),
         15 => intro_consistent(&poisoned_std_mutex(), d, "std::sync::Mutex<u32> (poisoned)"),
         16 => intro_consistent(&std::sync::Mutex::new(Some(3u8)), d, "std::sync::Mutex<Option<u8>>"),
-        17 => intro_consistent(&(0..n as u32).collect::<VecDeque<u32>>(), d, "VecDeque<u32>"),
+        17 => {
+            // also with a physically wrapped ring buffer (push_back to capacity, pop_front, push_back again)
+            let mut dq: VecDeque<u32> = VecDeque::with_capacity(4);
+            let cap = dq.capacity();
+            for i in 0..cap as u32 { dq.push_back(i); }
+            for _ in 0..(n + 1).min(cap) { dq.pop_front(); }
+            for i in 0..(n + 1).min(cap) as u32 { dq.push_back(100 + i); }
+            intro_consistent(&dq, d, "VecDeque<u32> (wrapped ring buffer)");
+            let mut front: VecDeque<u32> = (0..n as u32).collect();
+            front.push_front(9);
+            intro_consistent(&front, d, "VecDeque<u32> (after push_front)");
+            intro_consistent(&(0..n as u32).collect::<VecDeque<u32>>(), d, "VecDeque<u32>")
+        }
         18 => intro_consistent(&(0..n as u32).collect::<BinaryHeap<u32>>(), d, "BinaryHeap<u32>"),
         19 => intro_consistent(&[s.u8(), 1, 2], d, "[u8;3]"),
         20 => intro_consistent(&(1u8, 2u16, "x".to_string(), Some(4u32)), d, "(u8,u16,String,Option<u32>)"),
